@@ -99,13 +99,15 @@ int main() {
             out = guard([&]() { return i2s(Orientation::index(a, b, c)); }) + " " +
                   guard([&]() { return i2s(GEOSOrientationIndex_r(h, a.x, a.y, b.x, b.y, c.x, c.y)); }) + " " +
                   guard([&]() { return i2s(Orientation::index(b, a, c)); }) + " " +
-                  i2s(CGAlgorithmsDD::orientationIndexFilter(a.x, a.y, b.x, b.y, c.x, c.y));
+                  i2s(CGAlgorithmsDD::orientationIndexFilter(a.x, a.y, b.x, b.y, c.x, c.y)) + " " +
+                  guard([&]() { return i2s(Orientation::index(a, c, b)); });
         } else if (tag == "OB") {
             Coordinate a = r.xp(), b = r.xp(), c = r.xp();
             out = guard([&]() { return i2s(CGAlgorithmsDD::orientationIndex(a.x, a.y, b.x, b.y, c.x, c.y)); }) + " " +
                   i2s(CGAlgorithmsDD::orientationIndexFilter(a.x, a.y, b.x, b.y, c.x, c.y)) + " " +
                   guard([&]() { return i2s(GEOSOrientationIndex_r(h, a.x, a.y, b.x, b.y, c.x, c.y)); }) + " " +
-                  guard([&]() { return i2s(CGAlgorithmsDD::orientationIndex(b.x, b.y, a.x, a.y, c.x, c.y)); });
+                  guard([&]() { return i2s(CGAlgorithmsDD::orientationIndex(b.x, b.y, a.x, a.y, c.x, c.y)); }) + " " +
+                  guard([&]() { return i2s(CGAlgorithmsDD::orientationIndex(a.x, a.y, c.x, c.y, b.x, b.y)); });
         } else if (tag == "D") {
             double a = r.x(), b = r.x(), c = r.x(), d = r.x();
             out = guard([&]() { return i2s(CGAlgorithmsDD::signOfDet2x2(a, b, c, d)); });
